@@ -642,8 +642,8 @@ func CLIExitChain(p *core.Program, r *core.Report, rule string) {
 				return
 			}
 			if c, ok := e.(*ast.CallExpr); ok {
-				// a call returning error directly, or a wrap of a tested error
-				if fn := core.Callee(info, c); fn != nil && p.IsModuleFunc(fn) {
+				// a helper of package cli that returns its own error (the -f writer), or a wrap of a tested error
+				if fn := core.Callee(info, c); fn != nil && fn.Pkg() != nil && fn.Pkg().Path() == core.PkgCLI {
 					return
 				}
 				for _, a := range c.Args {
